@@ -6,7 +6,11 @@ A  TLC checks the layout laws (one exactly-tiled element, imperative shrink = de
 B  TLC (NdnPacketsGen) enumerates the same configurations with the expected element layout; each is
    built with the real make_interest / make_data and real signers, the wire is projected by the
    strict TLV reader and compared entry by entry (type, offset, header size, length); then
-   parse_interest / parse_data must return the caller's fields.
+   parse_interest / parse_data must return the caller's fields.  The representation of every name-valued parameter
+   (packet name, each ForwardingHint delegation, KeyLocator name: URI string, list / tuple / one-shot iterator of
+   encoded, memoryview, text or mixed components, encoded Name as bytes / bytearray / memoryview) and of the octet
+   strings is part of the configuration (cfg.rep; slice `forms` pins every form x 0..2 components x 1..2 delegations,
+   everywhere else the executor rotates); the expected tree does not depend on it (NdnPackets!LawForms).
 C  random configurations beyond the alphabet (<= 8 components of any type/length, <= 3 hint names,
    payloads <= 70 000, P-256/384/521 ECDSA with whatever length comes out, synthetic signers with
    any reserve/actual) and - thorough - every payload length 0..70 000 for three configurations are
@@ -99,8 +103,17 @@ def parse_check(cfg, b):
     return bad
 
 
+def pinned_rep(cfg):
+    """the configuration fixes the representation of a name-valued parameter to something else than a list of encoded components"""
+    rep = cfg.get('rep') or {}
+    fs = [rep.get('name'), rep.get('kl')] + list(rep.get('fh') or [])
+    return any(isinstance(f, dict) and f.get('box') != 'any' and (f.get('box'), f.get('item')) != ('list', 'bytes') for f in fs)
+
+
 def nontrivial(cfg, lay):
     sg = cfg['sg']
+    if pinned_rep(cfg):
+        return True
     if sg['a'] < sg['r']:
         return True
     if lay and (lay[0][4] in BND):
@@ -114,7 +127,7 @@ def check_built(ctx, cfg, exp, b, stage):
     """exp: TLC's expectation (stage B) or None (stage C: TLC judges the layout afterwards).
     Returns the observed layout or None."""
     fn = fn_of(cfg)
-    rep = {'kind': 'cfg', 'stage': stage, 'cfg': cfg}
+    rep = {'kind': 'cfg', 'stage': stage, 'cfg': cfg, 'forms': getattr(b, 'forms', None)}
     refuse_ok = exp['refuse'] if exp is not None else None
     if b.exc is not None:
         if isinstance(b.exc, MachineryError):
@@ -356,7 +369,8 @@ def run(ctx):
     ctx.rule = ('A: laws on every enumerated configuration; B: one real make_*/parse_* execution per configuration '
                 'TLC enumerates, layout compared entry by entry; C: random/swept configurations judged by TLC. '
                 'non-trivial = distinct configuration whose signature is shorter than its reserve, or whose outer or '
-                'payload length is 252/253/254/65535/65536/65537, or whose Interest name carries its own params digest')
+                'payload length is 252/253/254/65535/65536/65537, or whose Interest name carries its own params digest, '
+                'or that pins a name-valued parameter to a representation other than a list of encoded components')
     ctx.assumptions = ['strict TLV reader (harness/strict_tlv.py) is the projection from bytes to the element tree',
                        'PyCryptodome primitives; ECDSA signatures re-drawn until the enumerated DER length occurs']
     scale = ctx.pick(1, 2)
@@ -457,7 +471,7 @@ def record(ctx, cfg, pool, name_form='list'):
     obs = check_built(ctx, cfg, None, b, 'C')
     if b.exc is not None or nontrivial(cfg, obs):
         ctx.nt(['C', cfg])
-    return {'cfg': cfg, 'chk': ['lay'], 'refused': b.exc is not None, 'lay': pk.lay_json(obs or [])}
+    return {'cfg': cfg, 'chk': ['lay'], 'refused': b.exc is not None, 'lay': pk.lay_json(obs or []), 'forms': b.forms}
 
 
 def replay(ctx, path):
@@ -479,6 +493,8 @@ def replay(ctx, path):
         cfg = rec['cfg']
     else:
         cfg = obj['cfg']
+    if obj.get('forms') or obj.get('rec', {}).get('forms'):
+        cfg = dict(cfg, rep=obj.get('forms') or obj['rec']['forms'])       # the representations the failing run used (rotated where cfg left them open)
     b = pk.build(cfg, ctx.rng, pool, target=cfg['sg']['kind'] == 'ecdsa')
     print('cfg:', json.dumps(cfg))
     if b.exc is not None:
